@@ -126,6 +126,15 @@ def job(payload):
         # the generator rarely emits the bare directives; add some on purpose
         if rng.random() < 0.25:
             prog = ("cat", [prog, g.lit_int(), ("str", [rng.choice([b"", b"v="]), ("dir", rng.choice("sdxob")), b"|"])])
+        if rng.random() < 0.15:
+            # an infix operator whose LEFT operand rebinds a name that the RIGHT operand reads: each operand has its own scope
+            # (the documented expansion evaluates them in two separate let bodies), so the right one sees the outer binding
+            a, b = rng.sample([1, 2, 5, 7], 2)
+            nm = rng.choice(["Qs", "X", "A"])
+            frag = ("infix", ("cat", [("let", (nm,), ("int", b, "dec")), ("read", nm)]), rng.choice(["==", "!=", "<", ">", "<=", ">="]), ("read", nm))
+            if rng.random() < 0.5:
+                frag = ("infix", ("read", nm), rng.choice(["==", "!=", "<", ">"]), ("cat", [("let", (nm,), ("int", b, "dec")), ("read", nm)]))
+            prog = ("cat", [("let", (nm,), ("int", a, "dec")), frag, ("read", nm), prog])
         t0 = zast.text(prog)
         out["n"] += 1
         try:
